@@ -297,6 +297,13 @@ pub enum Gap {
     DoBeforeClose,
     AfterAssignEq,
     AfterNotWord,
+    /// after the last list item: a trailing comma may be emitted here
+    ListTrailingComma,
+    RecTrailingComma,
+    /// after the last call argument: `,` + line break may be emitted here
+    CallTrailingComma,
+    /// asked once per operand: returning Some(_) wraps the operand in redundant parentheses
+    MaybeParen,
 }
 
 impl Gap {
@@ -320,6 +327,7 @@ impl Gap {
             Gap::DoBeforeClose => "\n",
             Gap::AfterAssignEq => " ",
             Gap::AfterNotWord => " ",
+            Gap::ListTrailingComma | Gap::RecTrailingComma | Gap::CallTrailingComma | Gap::MaybeParen => "",
         }
     }
 }
@@ -420,7 +428,15 @@ impl<'a> Printer<'a> {
             Mode::Full => !Self::is_atom(h),
             Mode::Min => need,
         };
-        if wrap {
+        let extra = if !wrap && !matches!(h, H::Spread(_)) {
+            match self.deco.as_mut() {
+                Some(d) => d(Gap::MaybeParen).is_some(),
+                None => false,
+            }
+        } else {
+            false
+        };
+        if wrap || extra {
             self.paren(h, out)
         } else {
             self.p(h, out)
@@ -457,6 +473,7 @@ impl<'a> Printer<'a> {
                     }
                     self.p(x, out);
                 }
+                self.gap(Gap::ListTrailingComma, out);
                 self.gap(Gap::ListLastItemEol, out);
                 self.gap(Gap::BeforeListClose, out);
                 out.push(']');
@@ -499,6 +516,7 @@ impl<'a> Printer<'a> {
                         }
                     }
                 }
+                self.gap(Gap::RecTrailingComma, out);
                 self.gap(Gap::RecLastItemEol, out);
                 self.gap(Gap::BeforeRecClose, out);
                 out.push('}');
@@ -589,6 +607,7 @@ impl<'a> Printer<'a> {
                     self.p(a, out);
                 }
                 if !args.is_empty() {
+                    self.gap(Gap::CallTrailingComma, out);
                     self.gap(Gap::BeforeCallClose, out);
                 }
                 out.push(')');
